@@ -5,9 +5,28 @@ package limits
 // Contracts for the deductive verifier in /verif (govc). Comment-only file.
 
 // intsInBounds(n): every integer anywhere inside node n lies within +/-(2^53-1).
+// The four axioms are its definition by structural recursion over the node.
 //@ ghost func intsInBounds(n ipld.Node) bool
+//@ axiom intsInBounds_int(n ipld.Node): nodeKind(n) == datamodel.Kind_Int ==>
+//@     (intsInBounds(n) == (asIntErr(n) == nil && -9007199254740991 <= nodeInt(n) && nodeInt(n) <= 9007199254740991))
+//@   trigger intsInBounds(n)
+//@ axiom intsInBounds_list(n ipld.Node): nodeKind(n) == datamodel.Kind_List ==>
+//@     (intsInBounds(n) == (forall i int :: {listElem(n, i)} 0 <= i && i < listLen(n) ==> intsInBounds(listElem(n, i))))
+//@   trigger intsInBounds(n)
+//@ axiom intsInBounds_map(n ipld.Node): nodeKind(n) == datamodel.Kind_Map ==>
+//@     (intsInBounds(n) == (forall i int :: {mapValAt(n, i)} 0 <= i && i < mapLen(n) ==> intsInBounds(mapValAt(n, i))))
+//@   trigger intsInBounds(n)
+//@ axiom intsInBounds_other(n ipld.Node): nodeKind(n) != datamodel.Kind_Int && nodeKind(n) != datamodel.Kind_List && nodeKind(n) != datamodel.Kind_Map ==> intsInBounds(n)
+//@   trigger intsInBounds(n)
 //@
 //@ func ValidateIntegerBoundsIPLD
-//@   trusted
-//@   ensures result == nil ==> intsInBounds(node)
-//@   assigns nothing
+//@   requires node != nil
+//@   ensures [C10] sound: result == nil ==> intsInBounds(node)
+//@   decreases nodeSize(node)
+//@   use intsInBounds_int, intsInBounds_list, intsInBounds_map, intsInBounds_other, node_sizes, node_list_children, node_map_children
+//@   loop 0: invariant it != nil && litNode(it) == node && 0 <= litPos(it)
+//@           invariant forall i int :: {listElem(node, i)} 0 <= i && i < litPos(it) && i < listLen(node) ==> intsInBounds(listElem(node, i))
+//@           decreases listLen(node) - litPos(it)
+//@   loop 1: invariant it != nil && mitNode(it) == node && 0 <= mitPos(it)
+//@           invariant forall i int :: {mapValAt(node, i)} 0 <= i && i < mitPos(it) && i < mapLen(node) ==> intsInBounds(mapValAt(node, i))
+//@           decreases mapLen(node) - mitPos(it)
